@@ -153,6 +153,21 @@ def fmt_result(res, case, out, nstate):
         for te, ye in zip(res.t_events, res.y_events):
             if len(te) != len(ye): why = "t_events / y_events lengths differ"
             elif len(te) and np.asarray(ye).shape != (len(te), nstate): why = "y_events entry has shape %s" % (np.asarray(ye).shape,)
+        # row j of y_events[i] is the state at t_events[i][j]: the event function vanishes there (to root-finder accuracy),
+        # and with dense output the row is what sol returns for that time
+        if not why:
+            for e, te, ye in zip(case["events"], res.t_events, res.y_events):
+                g = make_event(e)
+                for j in range(len(te)):
+                    row = np.asarray(ye)[j]
+                    scale = 1.0 + abs(f(e["c"])) + float(np.max(np.abs(row)))
+                    if abs(g(float(te[j]), row)) > 1e-6 * scale:
+                        why = "event function is %.3e at (t_events[i][%d], y_events[i][%d]) = (%r, %r)" % (g(float(te[j]), row), j, j, float(te[j]), row.tolist()); break
+                    if res.sol is not None and res.status != 1:
+                        v = np.asarray(res.sol(float(te[j]))).ravel()
+                        if v.shape == row.shape and float(np.max(np.abs(v - row))) > 1e-7 * scale:
+                            why = "y_events[i][%d] = %r differs from sol(t_events[i][%d]) = %r" % (j, row.tolist(), j, v.tolist()); break
+                if why: break
     return why
 
 
